@@ -137,8 +137,49 @@ def build_object(rel_src, target):
     return out
 
 
+PROBE_FAILURES = {}
+
+
+def run_probes(target):
+    """compile probes: tiny TUs that must compile against the tree. A failing probe is
+    recorded (the driver reports it) and its define is passed to the harness so that the
+    harness itself still builds."""
+    failed = []
+    for pr in target.get("probes", []):
+        h = hashlib.sha256()
+        h.update(tree_key().encode())
+        h.update(pr["code"].encode())
+        key = h.hexdigest()[:24]
+        res = os.path.join(CACHE, "probe", key + ".result")
+        src = os.path.join(CACHE, "probe", key + ".cpp")
+        os.makedirs(os.path.dirname(res), exist_ok=True)
+        if not os.path.exists(res):
+            with open(src, "w") as f:
+                f.write(pr["code"])
+            p = subprocess.run(["g++", "-std=gnu++17", "-fsyntax-only",
+                                "-I" + os.path.join(SRC_ROOT, "include"), src],
+                               stdout=subprocess.PIPE, stderr=subprocess.STDOUT)
+            with open(res + ".tmp", "w") as f:
+                f.write("%d\n" % p.returncode)
+                f.write(p.stdout.decode("utf-8", "replace")[-3000:])
+            os.replace(res + ".tmp", res)
+        with open(res) as f:
+            lines = f.read().split("\n", 1)
+        if lines[0].strip() != "0":
+            failed.append({"name": pr["name"], "code": pr["code"], "define": pr.get("define"),
+                           "what": pr.get("what", pr["name"]),
+                           "output": lines[1] if len(lines) > 1 else ""})
+    return failed
+
+
 def build_target(target):
     compiler = target.get("compiler", "g++")
+    failed_probes = run_probes(target)
+    if failed_probes:
+        PROBE_FAILURES[target["name"]] = failed_probes
+        target = dict(target)
+        target["flags"] = list(target.get("flags", [])) + \
+            ["-D" + f["define"] for f in failed_probes if f.get("define")]
     flags = base_flags(target)
     srcs = [os.path.join(VERIF, s) for s in target["src"]]
     extra_deps = [os.path.join(VERIF, s) for s in target.get("deps", [])]
